@@ -75,10 +75,11 @@ theorem GenC14_e2e_over_the_wire (ver : Nat × Nat) (op : Nat) (p : DynV) (clock
     (hwq : WFv (.struct KmipGen.sd_Request) (mkRequest wireZExt ver op p))
     (hsq : (canonTop KmipGen.sd_Request (mkRequest wireZExt ver op p)).Small = true)
     (heq : encodeSD KmipGen.sd_Request (mkRequest wireZExt ver op p) = .ok rb) :
-    ∃ rv d1 resp, decodeSD KmipGen.sd_Request rb fin1 = .ok (rv, rb.length, d1) ∧
-      handleBatch wireZNonce wireZExt clock true H rv = some resp ∧
-      (WFv (.struct KmipGen.sd_Response) resp → (canonTop KmipGen.sd_Response resp).Small = true →
-        encodeSD KmipGen.sd_Response resp = .ok sb →
+    ∃ rv d1, decodeSD KmipGen.sd_Request rb fin1 = .ok (rv, rb.length, d1) ∧
+      handleBatch wireZNonce wireZExt clock true H rv = some (respVal wireZNonce wireZExt clock H (sendView ver op p)) ∧
+      (WFv (.struct KmipGen.sd_Response) (respVal wireZNonce wireZExt clock H (sendView ver op p)) →
+        (canonTop KmipGen.sd_Response (respVal wireZNonce wireZExt clock H (sendView ver op p))).Small = true →
+        encodeSD KmipGen.sd_Response (respVal wireZNonce wireZExt clock H (sendView ver op p)) = .ok sb →
         ∃ cv d2, decodeSD KmipGen.sd_Response sb fin2 = .ok (cv, sb.length, d2) ∧
           Client.send true true op (Client.respView cv) =
             (match H 0 { op := op, uid := [], payload := normDyn p } with
@@ -87,26 +88,49 @@ theorem GenC14_e2e_over_the_wire (ver : Nat × Nat) (op : Nat) (p : DynV) (clock
   obtain ⟨hd1, hok1, ht1, hd2, hok2, ht2⟩ := wire_schemas_ok
   obtain ⟨d1, hdec⟩ := C01_roundtrip KmipGen.sd_Request _ rb fin1 hd1 hok1 ht1 hwq hsq heq
   have hview := reqView_norm_mkRequest ver op p
-  refine ⟨_, d1, respVal wireZNonce wireZExt clock H
-      { version := .struct [.one (.int ver.1), .one (.int ver.2)], corr := [], async := false, credType := 0, batchCount := 1,
-        items := [{ op := op, uid := [], payload := normDyn p }] }, hdec, ?_, ?_⟩
+  refine ⟨_, d1, hdec, ?_, ?_⟩
   · unfold handleBatch
     rw [hview]
-    simp
+    simp [sendView]
   · intro hwr hsr her
     obtain ⟨d2, hdec2⟩ := C01_roundtrip KmipGen.sd_Response _ sb fin2 hd2 hok2 ht2 hwr hsr her
     refine ⟨_, d2, hdec2, ?_⟩
     have hr := respView_norm_respVal clock (.struct [.one (.int ver.1), .one (.int ver.2)]) [] { op := op, uid := [], payload := normDyn p }
       (H 0 { op := op, uid := [], payload := normDyn p })
-    have heqv : respVal wireZNonce wireZExt clock H
-          { version := .struct [.one (.int ver.1), .one (.int ver.2)], corr := [], async := false, credType := 0, batchCount := 1,
-            items := [{ op := op, uid := [], payload := normDyn p }] } =
+    have heqv : respVal wireZNonce wireZExt clock H (sendView ver op p) =
         respVal wireZNonce wireZExt clock (fun _ _ => H 0 { op := op, uid := [], payload := normDyn p })
           { version := .struct [.one (.int ver.1), .one (.int ver.2)], corr := [], async := false, credType := 0, batchCount := 1,
             items := [{ op := op, uid := [], payload := normDyn p }] } := rfl
     rw [heqv, hr]
     cases H 0 { op := op, uid := [], payload := normDyn p } <;> simp [Client.send, Client.statusSuccess]
 
+/-- **The same with the hypotheses reduced to the items.**  It is enough that the request's one batch item and the response's
+    one batch item are well-formed values of their types (the payload is of the type the operation dispatches to, strings
+    shorter than 2^32, numbers in range), that version numbers and the clock are in range, and that Encode accepts the two
+    messages; everything about the headers - the zero Authentication, the zero Nonce, the echoed fields - is derived. -/
+theorem GenC14_e2e_over_the_wire_items (ver : Nat × Nat) (op : Nat) (p : DynV) (clock : Nat) (H : Nat → ItemIn → HRes)
+    (rb sb : Bytes) (fin1 fin2 : Fin) (hv1 : ver.1 < two32) (hv2 : ver.2 < two32) (hclock : clock < two64)
+    (hitem : WFv (.struct KmipGen.sd_RequestBatchItem) (.struct [.one (.enum op), .one (.bytes []), .dyn p, .one wireZExt]))
+    (hsq : (canonTop KmipGen.sd_Request (mkRequest wireZExt ver op p)).Small = true)
+    (heq : encodeSD KmipGen.sd_Request (mkRequest wireZExt ver op p) = .ok rb)
+    (hritem : WFv (.struct KmipGen.sd_ResponseBatchItem)
+      (respItem wireZExt { op := op, uid := [], payload := normDyn p } (H 0 { op := op, uid := [], payload := normDyn p })))
+    (hsr : (canonTop KmipGen.sd_Response (respVal wireZNonce wireZExt clock H (sendView ver op p))).Small = true)
+    (her : encodeSD KmipGen.sd_Response (respVal wireZNonce wireZExt clock H (sendView ver op p)) = .ok sb) :
+    ∃ rv d1 cv d2, decodeSD KmipGen.sd_Request rb fin1 = .ok (rv, rb.length, d1) ∧
+      handleBatch wireZNonce wireZExt clock true H rv = some (respVal wireZNonce wireZExt clock H (sendView ver op p)) ∧
+      decodeSD KmipGen.sd_Response sb fin2 = .ok (cv, sb.length, d2) ∧
+      Client.send true true op (Client.respView cv) =
+        (match H 0 { op := op, uid := [], payload := normDyn p } with
+         | .success q => .payload (normDyn q)
+         | .failed r m => .failure r m) := by
+  obtain ⟨rv, d1, h1, h2, h3⟩ := GenC14_e2e_over_the_wire ver op p clock H rb sb fin1 fin2
+    (wf_mkRequest ver op p hv1 hv2 hitem) hsq heq
+  have hwr : WFv (.struct KmipGen.sd_Response) (respVal wireZNonce wireZExt clock H (sendView ver op p)) :=
+    wf_respVal clock H (sendView ver op p) (wf_sendView_version ver hv1 hv2) hclock (by simp [sendView, two32]) (by simp [sendView, two32]) (by simp [sendView])
+      ⟨hritem, trivial⟩
+  obtain ⟨cv, d2, h4, h5⟩ := h3 hwr hsr her
+  exact ⟨rv, d1, cv, d2, h1, h2, h4, h5⟩
 
 /-! ### non-vacuity of the hypotheses -/
 def exActPayloadV : Val := .struct [.one (.text [97])]
@@ -148,8 +172,8 @@ theorem GenC14_example_request_served (clock : Nat) (H : Nat → ItemIn → HRes
     ∃ rb rv d1 resp, encodeSD KmipGen.sd_Request (mkRequest wireZExt (1, 4) 18 exActPayload) = .ok rb ∧ rb.length = 120 ∧
       decodeSD KmipGen.sd_Request rb fin = .ok (rv, rb.length, d1) ∧
       handleBatch wireZNonce wireZExt clock true H rv = some resp := by
-  obtain ⟨rv, d1, resp, h1, h2, _⟩ := GenC14_e2e_over_the_wire (1, 4) 18 exActPayload clock H _ [] fin .eof
+  obtain ⟨rv, d1, h1, h2, _⟩ := GenC14_e2e_over_the_wire (1, 4) 18 exActPayload clock H _ [] fin .eof
     GenC14_example_request_wf GenC14_example_request_small rfl
-  exact ⟨_, rv, d1, resp, rfl, by decide +kernel, h1, h2⟩
+  exact ⟨_, rv, d1, _, rfl, by decide +kernel, h1, h2⟩
 
 end Kmip
